@@ -1066,6 +1066,8 @@ class CNLTransformer(Transformer):
             return AggregateOperation.MIN
 
     def VARIABLE(self, elem):
+        # every variable the author writes is reserved, also when it only occurs inside an expression or comparison
+        self._defined_variables.append(elem.value)
         return ValueComponent(elem.value)
 
     def COPULA(self, elem):
